@@ -7,6 +7,7 @@ normalised table of both datasets with the reference: supplied tables must come 
 (the supplied edge numbering is a random permutation with random orientation, which no
 derivation would reproduce), derived tables must satisfy the defining relations.
 """
+import math
 import warnings
 
 import numpy
@@ -266,6 +267,49 @@ def start_index_cases(draw):
     return {"mesh": mesh, "enc": enc, "value": value}
 
 
+@st.composite
+def large_mesh_cases(draw):
+    """Strips of 100-260 faces (200-520 nodes) in narrow integer types: sizes at which node or
+    edge numbers, or arithmetic on them, no longer fit a careless intermediate type."""
+    nf = draw(st.integers(100, 260))
+    n_nodes = 2 * (nf + 1)
+    # a node renumbering k -> (a * k + b) mod N with a coprime to N (drawn, not random)
+    a = draw(st.sampled_from([1, 3, 5, 7, 11, 13, 17, 19, 23, 29, 31, 37]))
+    while math.gcd(a, n_nodes) != 1:
+        a += 2
+    b = draw(st.integers(0, n_nodes - 1))
+    number = [(a * k + b) % n_nodes for k in range(n_nodes)]
+    nodes = [None] * n_nodes
+    for i in range(nf + 1):
+        nodes[number[i]] = [i * 0.25, 0.0]
+        nodes[number[nf + 1 + i]] = [i * 0.25, 0.25]
+    split = draw(st.integers(0, 3))
+    rot = draw(st.integers(0, 3))
+    faces = []
+    for i in range(nf):
+        quad = [number[i], number[i + 1], number[nf + 1 + i + 1], number[nf + 1 + i]]
+        if split and i % (split + 1) == 0:
+            faces.append([quad[0], quad[1], quad[2]])
+            faces.append([quad[0], quad[2], quad[3]])
+        else:
+            r = (rot + i) % 4
+            faces.append(quad[r:] + quad[:r])
+    mesh = {"nodes": nodes, "faces": faces, "invalid": [], "edges": specs.mesh_edges(faces)}
+    if draw(st.booleans()):
+        mesh["edges"] = mesh["edges"][::-1]
+    out = {"mesh": mesh}
+    for tag in ("a", "b"):
+        enc = draw(S.ugrid_encoding(require_edge_node=draw(st.booleans()), dtypes=("i2", "i2", "i4")))
+        enc["edge_dim_attr"] = True
+        if "edge_node" not in enc["supply"] and "edge_face" not in enc["supply"]:
+            enc["edge_coords"] = True
+        out["enc_" + tag] = enc
+        out["mode_" + tag] = draw(st.sampled_from(["raw", "raw", "decoded"]))
+    out["order"] = list(draw(st.permutations(
+        ["edge_node_array", "face_edge_array", "edge_face_array", "face_face_array"])))
+    return out
+
+
 def strategy(tier):
     return cases()
 
@@ -277,5 +321,6 @@ def start_index_strategy(tier):
 SUBS = [
     Sub("two_encodings", strategy, check_case, quick=250, thorough=1500),
     Sub("start_index_attribute", start_index_strategy, check_start_index, quick=30, thorough=100),
+    Sub("large_strip_meshes", lambda tier: large_mesh_cases(), check_case, quick=6, thorough=40),
 ]
 MATCHERS = {}
